@@ -1352,3 +1352,74 @@ func ruleC23close(c *Ctx, r *Report) {
 	}
 	_ = strings.TrimSpace
 }
+
+func init() { register("C23", "", ruleC23d) }
+
+// ruleC23d: the two reactions to a namespace change use one transaction predicate: clearKsConns drops the pinned
+// connections when !isInTransaction(), shouldClearKsAndCloseSession disconnects when isInTransaction(); if the second
+// tested anything narrower, a client in between would neither be dropped nor disconnected.
+func ruleC23d(c *Ctx, r *Report) {
+	const rule = "MP-C23d"
+	r.floor(rule, 1)
+	pf := c.pcFacts()
+	fn := c.Method(serverRel, "Session", "shouldClearKsAndCloseSession")
+	statusF := c.Field(serverRel, "SessionExecutor", "status")
+	if pf == nil || fn == nil || statusF == nil {
+		r.undecided(rule, "(*proxy/server.Session).shouldClearKsAndCloseSession", "anchor", "-", "anchors not found")
+		return
+	}
+	name := c.FuncName(fn)
+	direct := false
+	allInstrs(fn, func(in ssa.Instruction) {
+		if fa, ok := in.(*ssa.FieldAddr); ok && fieldOfAddr(fa) == statusF {
+			direct = true
+		}
+	})
+	n := 0
+	for _, ret := range returnsOf(fn) {
+		vals, _ := retValues(ret, 0)
+		maybe := false
+		for _, v := range vals {
+			if b, ok := constBool(v); !ok || b {
+				maybe = true
+			}
+		}
+		if !maybe {
+			continue
+		}
+		n++
+		dom := false
+		for _, ci := range callsIn(fn, func(cc *ssa.CallCommon) bool { return callsFunc(cc, pf.isInTx) }) {
+			// the result may be returned through short-circuit phis: accept domination of the return or of the value's definition
+			if dominatedByCond(ret, ci.(*ssa.Call), true) {
+				dom = true
+			}
+			for _, v := range vals {
+				if def, ok := v.(ssa.Instruction); ok && dominatedByCond(def, ci.(*ssa.Call), true) {
+					dom = true
+				}
+				if ph, ok := v.(*ssa.Phi); ok {
+					// a && b && c: the phi's non-constant edge comes from a block dominated by the earlier tests
+					for i, e := range ph.Edges {
+						if _, isC := e.(*ssa.Const); isC {
+							continue
+						}
+						pred := ph.Block().Preds[i]
+						if dominatedByCond(pred.Instrs[len(pred.Instrs)-1], ci.(*ssa.Call), true) {
+							dom = true
+						}
+					}
+				}
+			}
+		}
+		cons := fmt.Sprintf("return-maybe-true#%d", n)
+		if dom && !direct {
+			r.ok(rule, name, cons, c.Pos(exitPos(ret)), "decided with isInTransaction(), the same predicate clearKsConns negates")
+		} else {
+			r.viol(rule, name, cons, c.Pos(exitPos(ret)), "the disconnect-on-namespace-change test does not use isInTransaction() (the predicate clearKsConns negates): a keep-session client that is in a transaction by autocommit=0 is neither dropped nor disconnected after a reload")
+		}
+	}
+	if n == 0 {
+		r.undecided(rule, name, "return-maybe-true", c.Pos(fn.Pos()), "no possibly-true return")
+	}
+}
